@@ -331,7 +331,7 @@ impl Scenario for C07 {
       nontrivial: multi > 0 || jumps > 0 || creeps > 0,
       sim_ns: sim,
       steps: case.acts.len() as u64,
-      faults: vec![("task_reorder(>=2 ready, AnyReady)", if case.policy == Policy::AnyReady { multi } else { 0 }), ("clock_jump_over_2_deadlines", jumps), ("time_passes_inside_a_timer_creation", creeps)],
+      faults: vec![("task_reorder(>=2 ready, AnyReady)", if case.policy == Policy::AnyReady { multi } else { 0 }), ("clock_jump_over_2_deadlines", jumps), ("time_passes_inside_a_timer_creation", creeps), ("far_ahead_delay(2^32 us/ms/s, 2^64 ns)", (case.far > 0) as u64)],
       reach: vec![(">=2_ready_tasks_at_run_decision", multi)],
       resolved: None,
       sample,
@@ -520,7 +520,7 @@ impl Scenario for C07Feedback {
       nontrivial: true,
       sim_ns: sim,
       steps: case.limit as u64,
-      faults: vec![("emission_from_inside_a_delivery", case.limit as u64 - 1)],
+      faults: vec![("emission_from_inside_a_delivery", case.limit as u64 - 1), ("terminal_from_inside_a_delivery", (case.end > 0) as u64)],
       reach: vec![],
       resolved: None,
       sample: format!("{} limit={} => [{}]", site, case.limit, fmt_trace(&evs)),
